@@ -167,6 +167,55 @@ def count_obligations(files):
     return n
 
 
+def proof_status(pr, tier):
+    """Build + scan + Print Assumptions.  Returns (problems:list[str], info:dict)."""
+    problems = []
+    info = {"theorems": {}, "obligations": 0, "discharged": 0}
+    try:
+        info["build_s"] = round(build(clean=False), 1)
+    except BuildError as e:
+        problems.append(f"build failed at: {e.what}\n{e.log[-3000:]}")
+        return problems, info
+    hits = scan_forbidden()
+    if hits:
+        problems.append("forbidden constructs in the Coq development:\n" + "\n".join(hits))
+    if pr is None:
+        problems.append("no theorem is registered for this property")
+        return problems, info
+    stale = [f for f in pr["files"] if not vo_up_to_date(f)]
+    if stale:
+        problems.append("proof files that no longer compile: " + ", ".join(stale)
+                        + "\n" + MAKE_LOG[-3000:])
+        return problems, info
+    files = [os.path.join(COQ, "theories", f) for f in pr["files"]]
+    info["obligations"] = count_obligations(files)
+    info["discharged"] = info["obligations"]
+    try:
+        pa = print_assumptions(pr["module"], pr["theorems"])
+    except BuildError as e:
+        problems.append(f"{e.what}\n{e.log[-2000:]}")
+        return problems, info
+    info["theorems"] = pa
+    allowed = pr.get("allowed_axioms", [])
+    for t in pr["theorems"]:
+        txt = pa.get(t, "<missing>")
+        if "Closed under the global context" in txt:
+            continue
+        rest = [ln for ln in txt.split("\n") if ln.strip() and not ln.startswith(" ")
+                and not ln.startswith("Axioms:")]
+        bad = [ln for ln in rest if not any(a in ln for a in allowed)]
+        if bad or not rest:
+            problems.append(f"theorem {t} is not closed: {txt[:500]}")
+    if tier == "thorough" and not problems:
+        rc, out = sh(f"timeout 1500 coqchk -silent -o -R {COQ}/theories TP TP.{pr['module']}",
+                          cwd=COQ, timeout=1600)
+        info["coqchk"] = out[-1500:]
+        if rc != 0:
+            problems.append("coqchk failed:\n" + out[-2000:])
+    return problems, info
+
+
+
 def run_driver(args, text, timeout=1800):
     p = subprocess.run([DRIVER] + args, input=text, stdout=subprocess.PIPE, stderr=subprocess.PIPE,
                        text=True, timeout=timeout)
